@@ -86,6 +86,10 @@ func All(verif, prop string) []Variant {
 }
 
 func find(verif, prop, name string) (Variant, bool) {
+	// development aid: `-variant patch:/abs/path.diff` evaluates any stored diff as an in-memory overlay
+	if strings.HasPrefix(name, "patch:") {
+		return Variant{Name: name, Prop: prop, Patch: strings.TrimPrefix(name, "patch:")}, true
+	}
 	for _, v := range All(verif, prop) {
 		if v.Name == name {
 			return v, true
